@@ -485,7 +485,8 @@ impl HttpServer {
     /// Note that this function can block the thread on write, since the
     /// operation is blocking.
     pub fn flush_outgoing_writes(&mut self) {
-        for (_, connection) in self.connections.iter_mut() {
+        for (fd, connection) in self.connections.iter_mut() {
+            let was_outgoing = connection.state == ClientConnectionState::AwaitingOutgoing;
             while connection.state == ClientConnectionState::AwaitingOutgoing {
                 #[cfg(feature = "verif_hooks")]
                 crate::verif::tick("HttpServer::flush_outgoing_writes");
@@ -496,6 +497,15 @@ impl HttpServer {
                     }
                     break;
                 }
+            }
+            // If the connection was fully flushed it went back to awaiting incoming bytes,
+            // so its `epoll` event set has to follow, as it does in `requests()`.
+            if was_outgoing && connection.state == ClientConnectionState::AwaitingIncoming {
+                let _ = Self::epoll_mod(
+                    &self.epoll,
+                    *fd,
+                    epoll::EventSet::IN | epoll::EventSet::READ_HANG_UP,
+                );
             }
         }
     }
